@@ -26,7 +26,7 @@ RULE = ('one case = one history: a construction (constructor / from_sequence / C
         'root, non-root SR or non-SR sequence from 0..4 items followed by 1..15 operations drawn from append, extend, '
         '(argument a list or a ContentSequence with any flags), insert (any position, also positions that are not ints), setitem (index / slice incl. extended), delitem (index / slice), +=, pop, remove '
         '(indices and positions in every accepted spelling: int, bool, numpy integer types, objects with __index__), '
-        'reverse, clear, continue-on-find-result, continue-on-get_nodes-result, and (5 %) every entry path with an argument that is NOT a content item (a plain Dataset holding all elements of one, an empty Dataset, str, None, int; alone or after conforming items); iterable arguments as list / tuple / generator / iterator / deque; in 35 % of the histories a POOL of up to three sequences is alive (clone = ContentSequence(member, own flags), attach = item.ContentSequence = member, copy = copy.copy(member), deepcopy = copy.deepcopy(member), pickle = pickle round trip), operations go to any member and EVERY member (list, every find, index / in, get_nodes, flags, object identities) is observed after every step; items share a 4-name alphabet (equal '
+        'reverse, clear, continue-on-find-result, continue-on-get_nodes-result, and (5 %; 4 % of the constructions) every entry path with an argument that is NOT a content item (a plain Dataset holding all elements of one, an empty Dataset, str, None, int; alone or after conforming items); iterable arguments as list / tuple / generator / iterator / deque; in 35 % of the histories a POOL of up to three sequences is alive (clone = ContentSequence(member, own flags), attach = item.ContentSequence = member, copy = copy.copy(member), deepcopy = copy.deepcopy(member), pickle = pickle round trip), operations go to any member and EVERY member (list, every find, index / in, get_nodes, flags, object identities) is observed after every step; items share a 4-name alphabet (equal '
         'names may differ in code meaning; two further names are an SRT / SCT alias pair, == but with different hashes; two more are the code of name 0 with scheme versions 1.0 / 2.0 - different names with the same value and designator; every fifth item gets its name as a plain pydicom Code), carry or lack a relationship type, and have a unique ObservationUID unless '
         'deliberately duplicated (same object or equal copy); after every step list, find(n) for all names (each spelled as CodedConcept and as pydicom Code), index/in '
         'for all items made so far and get_nodes are observed.  Non-trivial = history with >= 2 accepted mutations and '
@@ -251,7 +251,11 @@ def gen_case(ctx, idx):
             op.setdefault('seq', r.randrange(3))       # taken modulo the pool size when the history runs
     extra = _gen_item(r, kind, st)          # an item that never enters: probe for index / in
     extra.pop('dup', None)
-    return {'idx': idx, 'kind': kind, 'via': via, 'init': init, 'ops': ops, 'probe': extra}
+    case = {'idx': idx, 'kind': kind, 'via': via, 'init': init, 'ops': ops, 'probe': extra}
+    if via in ('ctor', 'iterator', 'setattr') and r.random() < 0.04:
+        # something that is not a content item among the items offered to the constructor / the attribute setter
+        case['init_other'] = {'what': r.choice(OTHERS), 'at': r.randrange(len(init) + 1)}
+    return case
 
 
 # ----------------------------------------------------------------------------------------------
@@ -668,6 +672,8 @@ def _construct(case, objs):
     from pydicom import Dataset
     is_root, is_sr = KINDS[case['kind']]
     items = [objs.get(d) for d in case['init']]
+    if case.get('init_other'):
+        items.insert(case['init_other']['at'], _other(case['init_other']['what'], case['kind']))
     try:
         if case['via'] == 'from_sequence':
             plain = [Dataset.from_json(i.to_json()) for i in items]
@@ -718,9 +724,12 @@ def run_history(ctx, case, oracle=True):
     note_items(case['init'])
     seq, err = _construct(case, objs)
     trace = []
+    if seq is not None and case.get('init_other') and oracle:
+        ctx.fail({'case': case, 'step': -1}, {'what': 'a sequence was constructed from items among which one is not a content item',
+                                             'argument': case['init_other']['what']}, site='non-item-entered')
     if seq is None:
         # oracle: a construction offering only documented-acceptable items must be accepted
-        if oracle and all(_ctor_documented_ok(kind, d) for d in case['init']):
+        if oracle and not case.get('init_other') and all(_ctor_documented_ok(kind, d) for d in case['init']):
             ctx.fail({'case': case, 'step': -1}, f'construction from acceptable items refused ({err})', site='construct')
         trace.append({'err': err, 'obs': None})
         return trace, None
@@ -826,7 +835,8 @@ def model_request(case):
         ops.append(o)
     probes = [case['probe']['u']]
     return ('history', {'root': is_root, 'sr': is_sr, 'via': case['via'], 'init': [_item_json(d) for d in case['init']],
-                        'ops': ops, 'names': ALL_NAMES, 'probe': _item_json(case['probe'])})
+                        'ops': ops, 'names': ALL_NAMES, 'probe': _item_json(case['probe']),
+                        'init_other': bool(case.get('init_other'))})
 
 
 def _compare(ctx, case, trace, ans):
@@ -945,6 +955,8 @@ def run(ctx):
                  via=case['via'], length=len(case['ops']), construct=('ok' if trace[0]['err'] is None else trace[0]['err']))
         for t, op in zip(trace[1:], case['ops']):
             ctx.hist('ops', op['op'] + ('[seq:' + op['as_seq'] + ']' if op.get('as_seq') else '') + ('' if t['err'] is None else '/refused:' + t['err']))
+        if case.get('init_other'):
+            ctx.hist('non_item_argument', 'constructor:' + case['init_other']['what'])
         for op in case['ops']:
             if op.get('form'):
                 ctx.hist('iterable_argument_form', op['form'])
